@@ -125,6 +125,7 @@ func (e *Evaluator) pushFrame(name string) error {
 	}
 
 	e.stackTop = &frame
+	verifFrame(true, name, frame.depth)
 	return nil
 }
 
@@ -132,6 +133,7 @@ func (e *Evaluator) popFrame() error {
 	if e.stackTop.parent == nil {
 		panic(fmt.Errorf("attempt to pop root frame"))
 	}
+	verifFrame(false, e.stackTop.name, e.stackTop.depth)
 	e.stackTop = e.stackTop.parent
 	return nil
 }
@@ -211,6 +213,9 @@ func (e *Evaluator) evalString(str string) (*Cell, error) {
 }
 
 func (e *Evaluator) evalExpr(expr Expr) (*Cell, error) {
+	if err := verifStep(expr); err != nil {
+		return nil, err
+	}
 	switch exp := expr.(type) {
 	case *ExprLiteral:
 		switch exp.token.Tag {
@@ -845,6 +850,9 @@ func (e *Evaluator) evalExprList(exprs []Expr, copy bool) ([]*Cell, error) {
 }
 
 func (e *Evaluator) evalStatement(stmt Statement) error {
+	if err := verifStep(stmt); err != nil {
+		return err
+	}
 	switch st := stmt.(type) {
 	case *StatementBlock:
 		for _, s := range st.Body {
@@ -1039,6 +1047,7 @@ func (e *Evaluator) evalStatement(stmt Statement) error {
 
 func (e *Evaluator) evalRules(rules []*Rule) error {
 	for _, rule := range rules {
+		verifRule("pattern", e)
 		match := true
 		if rule.Pattern != nil {
 			cell, err := e.evalExpr(rule.Pattern)
@@ -1141,6 +1150,7 @@ func EvalProgram(progSrc string, files []InputFile, rootSelectors []string, stdo
 	// begin rules
 	for _, rule := range ev.beginRules {
 		ev.ruleRoot = NewCell(NewValue(nil))
+		verifRule("BEGIN", &ev)
 		if err := ev.evalStatement(rule.Body); err != nil {
 			if err == errExit {
 				return &ev, nil
@@ -1182,6 +1192,7 @@ func EvalProgram(progSrc string, files []InputFile, rootSelectors []string, stdo
 				// run the begin file rules
 				for _, rule := range ev.beginFileRules {
 					ev.ruleRoot = rootCell
+					verifRule("BEGINFILE", &ev)
 					if err := ev.evalStatement(rule.Body); err != nil {
 						if err == errExit {
 							return &ev, nil
@@ -1202,6 +1213,7 @@ func EvalProgram(progSrc string, files []InputFile, rootSelectors []string, stdo
 				// run the end file rules
 				for _, rule := range ev.endFileRules {
 					ev.ruleRoot = NewCell(rootVal)
+					verifRule("ENDFILE", &ev)
 					if err := ev.evalStatement(rule.Body); err != nil {
 						if err == errExit {
 							return &ev, nil
@@ -1216,6 +1228,7 @@ func EvalProgram(progSrc string, files []InputFile, rootSelectors []string, stdo
 	// end rules
 	for _, rule := range ev.endRules {
 		ev.ruleRoot = NewCell(NewValue(nil))
+		verifRule("END", &ev)
 		if err := ev.evalStatement(rule.Body); err != nil {
 			if err == errExit {
 				return &ev, nil
